@@ -134,3 +134,13 @@ Print Assumptions C13_iterations_exact.
 Print Assumptions C13_searchmoves_respected.
 Print Assumptions C13_node_overshoot.
 Print Assumptions C13_budget_le_clock_partial.
+
+(* tie to the source: the constants the model copies from the Go source equal what the running engine reports
+   (gen/Tables_gen.v is regenerated on every run by `verifh dump-tables`) *)
+From FG.gen Require Import Tables_gen.
+From Coq Require Import ZArith NArith. (* consts *)
+From FG Require ConstTie.
+From FG Require TimeCtl.
+Theorem C13_model_constants_dumped :
+  Z.of_nat TimeCtl.MaxDepth = c_max_depth.
+Proof. exact ConstTie.timectl_constants_dumped. Qed.
